@@ -90,7 +90,29 @@ fn gen_cone(t: &mut Tape) -> ConeSpec {
 /// direction classes relative to the point x (interior) of cone c
 fn direction(t: &mut Tape, c: &ConeSpec, x: &[f64], dual: bool, scale: f64) -> Vec<f64> {
     let n = x.len();
-    let class = t.weighted(&[4, 3, 2, 2, 1, 1, 1]);
+    let class = t.weighted(&[4, 3, 2, 2, 1, 1, 1, 2]);
+    if class == 7 {
+        // directions lying exactly on the boundary of the cone or of its negative (second-order cones:
+        // integer Pythagorean data so that t^2 - ||u||^2 is exactly zero in floating point)
+        if let ConeSpec::Soc(k) = c {
+            if *k >= 3 {
+                let (a, b, h) = t.choose(&[(3.0, 4.0, 5.0), (5.0, 12.0, 13.0), (8.0, 15.0, 17.0), (0.0, 1.0, 1.0)]);
+                let sgn = if t.coin() { 1.0 } else { -1.0 };
+                let f = scale * t.choose(&[1.0, 0.5, 2.0, 0.125]);
+                let mut d = vec![0.0; n];
+                d[0] = sgn * h * f;
+                let i1 = 1 + t.below(n - 1);
+                let mut i2 = 1 + t.below(n - 1);
+                if i2 == i1 {
+                    i2 = if i1 + 1 < n { i1 + 1 } else { 1 };
+                }
+                d[i1] = a * f * if t.coin() { 1.0 } else { -1.0 };
+                d[i2] = b * f * if t.coin() { 1.0 } else { -1.0 };
+                return d;
+            }
+        }
+        return (0..n).map(|_| scale * t.signed(2.0)).collect();
+    }
     match class {
         0 => (0..n).map(|_| scale * t.signed(2.0)).collect(), // generic
         1 => {
@@ -116,7 +138,7 @@ fn direction(t: &mut Tape, c: &ConeSpec, x: &[f64], dual: bool, scale: f64) -> V
 pub fn gen_step(t: &mut Tape, composite: bool) -> StepCase {
     let ncones = if composite { t.usize_in(2, 4) } else { 1 };
     let cones: Vec<ConeSpec> = (0..ncones).map(|_| gen_cone(t)).collect();
-    let dec = t.choose(&[0.0, 0.0, 3.0, 6.0]);
+    let dec = t.choose(&[0.0, 0.0, 3.0, 6.0, 12.0]);
     let ss = 10f64.powf(t.uniform(-dec, dec));
     let sz = 10f64.powf(t.uniform(-dec, dec));
     let (mut s, mut z, mut ds, mut dz) = (vec![], vec![], vec![], vec![]);
@@ -128,8 +150,26 @@ pub fn gen_step(t: &mut Tape, composite: bool) -> StepCase {
         };
         let si = interior(t, c, false, delta, ss);
         let zi = interior(t, c, true, delta, sz);
-        ds.extend(direction(t, c, &si, false, ss));
-        dz.extend(direction(t, c, &zi, true, sz));
+        let mut si = si;
+        let mut zi = zi;
+        let mut dsi = direction(t, c, &si, false, ss);
+        let mut dzi = direction(t, c, &zi, true, sz);
+        if let ConeSpec::Nonneg(k) = c {
+            // components far below machine epsilon in absolute terms still limit the step
+            if t.chance(0.15) {
+                let i = t.below(*k);
+                let f = t.choose(&[2.0, 4.0, 1e3, 1.5]);
+                if t.coin() {
+                    zi[i] = 10f64.powf(t.uniform(-25.0, -14.0));
+                    dzi[i] = -f * zi[i];
+                } else {
+                    si[i] = 10f64.powf(t.uniform(-25.0, -14.0));
+                    dsi[i] = -f * si[i];
+                }
+            }
+        }
+        ds.extend(dsi);
+        dz.extend(dzi);
         s.extend(si);
         z.extend(zi);
     }
@@ -225,6 +265,15 @@ pub fn check_step(c: &StepCase, ctx: &mut Ctx) -> CheckResult {
         ensure!(m0 > 0.0, "generator produced a non-interior point for {k:?}");
         let slack = (1e3 * EPS / m0).max(1e-12);
         comp_tol = comp_tol.max(8.0 * (EPS / m0).sqrt()).max(1e4 * EPS / m0);
+        if matches!(k, ConeSpec::Nonneg(_)) {
+            // products of scalar cones: membership is componentwise, so is the rounding allowance
+            for (x, d, a, nm) in [(zi, dzi, az, "z"), (si, dsi, as_, "s")] {
+                for i in 0..x.len() {
+                    let v = x[i] + a * d[i];
+                    ensure!(v >= -4.0 * EPS * (x[i].abs() + a * d[i].abs()), "{nm}[{i}] + alpha*d{nm}[{i}] = {v:e} is negative in nonnegative cone #{ci}: alpha = {a:e}, x = {:e}, d = {:e}", x[i], d[i]);
+                }
+            }
+        }
         for (x, d, a, dual, nm) in [(zi, dzi, az, true, "z"), (si, dsi, as_, false, "s")] {
             // margin of the new point, relative to the magnitudes that formed it
             let pt = at(x, d, a);
@@ -262,31 +311,51 @@ pub fn check_step(c: &StepCase, ctx: &mut Ctx) -> CheckResult {
                 if limited {
                     ctx.label(format!("limited:{}", k.kind()));
                 }
-            } else if a == 0.0 {
-                // allowed only if the first feasible trial would fall below alpha_min
-                ensure!(
-                    c.backtrack * b <= c.alpha_min * (1.0 + 1e-6) || b <= 1e-9 * c.alpha_max,
-                    "nonsymmetric cone {k:?}: step is 0 although the boundary is at {b:e} (alpha_min {:e}, backtrack {:e})",
-                    c.alpha_min, c.backtrack
-                );
-                ctx.label("nonsym:zero-step");
-            } else if a == c.max_step_fraction && c.max_step_fraction <= c.alpha_max {
-                ctx.label("nonsym:capped-at-max_step_fraction");
             } else {
-                // alpha = alpha_max * step^j, and the previous trial must have been infeasible for z or s
-                let j = ((a / c.alpha_max).ln() / c.backtrack.ln()).round();
-                let recon = c.alpha_max * c.backtrack.powf(j);
-                ensure!((recon - a).abs() <= 1e-9 * a, "nonsymmetric cone {k:?}: step {a:e} is not alpha_max*step^j");
-                if j > 0.0 {
-                    let prev = a / c.backtrack;
-                    let mz = rel_margin(k, &at(zi, dzi, prev), true);
-                    let ms = rel_margin(k, &at(si, dsi, prev), false);
-                    ensure!(
-                        mz.min(ms) <= slack.max(1e-9),
-                        "nonsymmetric cone {k:?}: step {a:e} is needlessly short: the previous trial {prev:e} is strictly feasible for both z and s (relative margins {mz:e}, {ms:e})"
-                    );
-                    ctx.label("nonsym:backtracked");
+                // the documented rule, simulated with the oracle's membership test: start at alpha_max, multiply by
+                // the backtracking factor until the point is inside, give up (0) once below alpha_min
+                let band = slack.max(1e-9);
+                let sim = |x: &[f64], d: &[f64], dual: bool| -> Option<f64> {
+                    let mut al = c.alpha_max;
+                    for _ in 0..10_000 {
+                        let mg = rel_margin(k, &at(x, d, al), dual);
+                        if mg.abs() <= band {
+                            return None; // too close to the boundary to predict the implementation's strict test
+                        }
+                        if mg > 0.0 {
+                            return Some(al);
+                        }
+                        al *= c.backtrack;
+                        if al < c.alpha_min {
+                            return Some(0.0);
+                        }
+                    }
+                    None
+                };
+                match (sim(zi, dzi, true), sim(si, dsi, false)) {
+                    (Some(ez), Some(es)) => {
+                        let mut exp = ez.min(es);
+                        if exp > c.max_step_fraction {
+                            exp = c.max_step_fraction; // cap applied by the composite wrapper
+                            ctx.label("nonsym:capped-at-max_step_fraction");
+                        }
+                        ensure!(
+                            (a - exp).abs() <= 1e-12 * exp.max(1e-300),
+                            "nonsymmetric cone {k:?}: step is {a:e} but the backtracking rule gives {exp:e} (z: {ez:e}, s: {es:e}; alpha_max {:e}, factor {:e}, alpha_min {:e})",
+                            c.alpha_max, c.backtrack, c.alpha_min
+                        );
+                        if exp == 0.0 {
+                            ctx.label("nonsym:zero-step");
+                        } else if exp < c.alpha_max.min(c.max_step_fraction) {
+                            ctx.label("nonsym:backtracked");
+                        }
+                        if c.alpha_max < c.alpha_min {
+                            ctx.label("nonsym:alpha_max-below-alpha_min");
+                        }
+                    }
+                    _ => ctx.label("nonsym:trial-within-rounding-of-boundary"),
                 }
+                let _ = b;
             }
         }
     }
@@ -334,7 +403,7 @@ pub fn gen_init(t: &mut Tape) -> InitCase {
         })
         .collect();
     let n: usize = cones.iter().map(|c| c.dim()).sum();
-    let mag = t.choose(&[1.0, 1e-6, 1e3, 1e8, 1e12]);
+    let mag = t.choose(&[1.0, 1e-6, 1e3, 1e8, 1e12, 1e16, 1e20]);
     let mk = |t: &mut Tape| -> Vec<f64> {
         (0..n)
             .map(|_| match t.weighted(&[4, 1, 1]) {
@@ -437,6 +506,15 @@ pub fn check_init(c: &InitCase, ctx: &mut Ctx) -> CheckResult {
             }
             any = true;
             let (ma, _) = ref_margins(k, sub);
+            if vn > 1e12 {
+                // beyond 1e12 the unit target is below the rounding of a cone-wide shift; for products of
+                // scalar cones the two-stage shift is still exact, so strict positivity is demanded there
+                if matches!(k, ConeSpec::Nonneg(_)) {
+                    ensure!(ma > 0.0, "symmetric_initialization leaves {nm} of nonnegative cone #{ci} with a non-positive entry ({ma:e}); input magnitude {vn:e}");
+                    ctx.label("huge-magnitude-nonneg-judged");
+                }
+                continue;
+            }
             let round = 8.0 * (sub.len() as f64) * EPS * vn;
             ensure!(
                 ma >= targets[vi] - (1e-3 * targets[vi]).max(round) && ma > 0.0,
